@@ -344,10 +344,37 @@ class World:
         self.keyset = KeySet([self.keys["p256"], self.keys["oct32"], self.keys["rsa2048"], self.keys["ed25519"]])
         return self.keyset
 
+    ROTATIONS = 5
+
+    def rotate(self, which):
+        """What an application does to its own key set between calls (KeySet.keys is a public list): replace a key by its
+        successor, add one, retire one, re-order.  Recorded, so that a fresh world can be brought to the same state."""
+        ks = self.keyset
+        self.rotations = getattr(self, "rotations", []) + [which]
+        for k in self.keys.values():
+            k.ensure_kid()
+        if which == 0:        # the symmetric key is replaced by its successor (in place)
+            for i, k in enumerate(ks.keys):
+                if k is self.keys["oct32"]:
+                    ks.keys[i] = self.keys["oct32b"]
+        elif which == 1:      # a second EC key is added
+            if self.keys["p256b"] not in ks.keys:
+                ks.keys.append(self.keys["p256b"])
+        elif which == 2:      # the RSA key is retired
+            ks.keys[:] = [k for k in ks.keys if k is not self.keys["rsa2048"]]
+        elif which == 3:      # a new list object, reversed
+            ks.keys = list(reversed(ks.keys))
+        elif which == 4:      # the first EC key is retired in favour of the second
+            if self.keys["p256b"] not in ks.keys:
+                ks.keys.append(self.keys["p256b"])
+            ks.keys[:] = [k for k in ks.keys if k is not self.keys["p256"]]
+
     @classmethod
-    def fresh(cls):
+    def fresh(cls, rotations=()):
         w = cls()
         w.make_keyset()
+        for r in rotations:
+            w.rotate(r)
         return w
 
 
@@ -387,6 +414,7 @@ def snapshot(world):
         snap[f"kid:{kn}"] = kid
     if world.keyset is not None:
         snap["keyset"] = [id(k) for k in world.keyset.keys]
+        snap["keyset.attrs"] = _deep({k: v for k, v in vars(world.keyset).items() if k != "keys"})
     for name in ("jws_reg", "jws_reg_hs", "jwe_reg", "jwe_reg_dir", "claims_reg"):
         snap[name] = _deep(getattr(world, name))
     snap["JWSRegistry.cls"] = _deep({k: v for k, v in vars(r15.JWSRegistry).items() if not k.startswith("__") and not callable(v)})
@@ -454,6 +482,16 @@ def make_calls(rng):
         calls[f"jws.sign.{alg}.b"] = jws_sign(alg, other.get(kn, kn), f"other-{alg}".encode() * 3)
     calls["jws.sign.set.ES256"] = jws_sign("ES256", "p256", b"via-set", use_set=True)
     calls["jws.sign.set.HS256"] = jws_sign("HS256", "oct32", b"via-set-hs", use_set=True)
+    # the key is picked from the set by the library (no kid given): whatever it picks must be a current member of the set
+    def jws_sign_pick(alg, payload):
+        return lambda w: ("token", "jws", jws.serialize_compact({"alg": alg}, payload, w.keyset, registry=w.jws_reg), ("set", alg, payload))
+    calls["jws.sign.set.nokid.HS256"] = jws_sign_pick("HS256", b"picked-hs")
+    calls["jws.sign.set.nokid.ES256"] = jws_sign_pick("ES256", b"picked-es")
+    calls["jws.sign.set.nokid.EdDSA"] = jws_sign_pick("EdDSA", b"picked-ed")
+    calls["jwe.enc.set.nokid.A256KW"] = lambda w: ("token", "jwe", jwe.encrypt_compact({"alg": "A256KW", "enc": "A128GCM"}, b"picked-kw", w.keyset, registry=w.jwe_reg),
+                                                   ("set", "A256KW", b"picked-kw"))
+    calls["jwe.enc.set.nokid.RSA-OAEP"] = lambda w: ("token", "jwe", jwe.encrypt_compact({"alg": "RSA-OAEP", "enc": "A128GCM"}, b"picked-rsa", w.keyset, registry=w.jwe_reg),
+                                                     ("set", "RSA-OAEP", b"picked-rsa"))
     calls["jws.sign.disallowed"] = jws_sign("ES256", "p256", b"nope", reg="jws_reg_hs")
     calls["jws.sign.wrongkey"] = jws_sign("ES256", "oct32", b"nope")
 
@@ -539,7 +577,7 @@ def consume(world, kind, token, src):
         o = jws.deserialize_json(json.loads(token), world.keyset, registry=world.jws_reg)
         return ("jwsjson", o.payload)
     if kind == "jwe":
-        o = jwe.decrypt_compact(token, world.keys[kn], registry=world.jwe_reg)
+        o = jwe.decrypt_compact(token, world.keyset if kn == "set" else world.keys[kn], registry=world.jwe_reg)
         return ("jwe", json.dumps(o.protected, sort_keys=True), o.plaintext)
     if kind == "jwejson":
         o = jwe.decrypt_json(json.loads(token), world.keyset if kn == "set" else world.keys[kn], registry=world.jwe_reg)
@@ -690,6 +728,12 @@ def history_job(ctx, hs):
                 elif mode < 0.4 and kind in ("jws", "jwe"):
                     src = (rng.choice(["p256b", "oct16", "oct32", "p256"]),) + tuple(src[1:])
                 name, arg = "consume", (kind, token, src)
+            elif rng.random() < 0.06:
+                # not a library call: the application changes its own key set; later calls must see the set as it is now
+                which = rng.randrange(World.ROTATIONS)
+                world.rotate(which)
+                hist.append(("app.rotate-keyset", which))
+                continue
             elif rng.random() < 0.12:
                 name, arg = rng.choice(["key.as_dict", "key.ensure_kid", "keyset.as_dict", "key.thumbprint", "key.as_pem"]), rng.choice(sorted(world.keys))
             else:
@@ -699,7 +743,8 @@ def history_job(ctx, hs):
             if name.startswith("key"):
                 bucket, fail = key_call(name, arg, world)
             else:
-                bucket, fail = do_call(name, calls, world, World.fresh, pool, arg, f"history {h} step {step}")
+                rots = tuple(getattr(world, "rotations", ()))
+                bucket, fail = do_call(name, calls, world, lambda rots=rots: World.fresh(rots), pool, arg, f"history {h} step {step}")
             after = snapshot(world)
             ctx.count("history", (h, step, name, repr(arg)[:80], ctx.seed), True, bucket)
             ctx.disagreements_checked += 1
@@ -713,7 +758,7 @@ def history_job(ctx, hs):
 
 
 def key_call(name, kn, world):
-    fresh = World.fresh()
+    fresh = World.fresh(tuple(getattr(world, "rotations", ())))
     k, f = world.keys[kn], fresh.keys[kn]
     try:
         if name == "key.as_dict":
@@ -747,6 +792,10 @@ API_PAIRS = [
     ("jws.sign.HS256", "jws.sign.HS256.b"),
     ("jws.sign.set.ES256", "key.ensure_kid:p256"),
     ("jws.sign.set.ES256", "jws.sign.set.HS256"),
+    ("jws.sign.set.nokid.HS256", "jws.sign.set.nokid.HS256"),
+    ("jws.sign.set.nokid.ES256", "jws.sign.set.nokid.HS256"),
+    ("jwe.enc.set.nokid.A256KW", "jwe.enc.set.nokid.A256KW"),
+    ("jwe.enc.set.nokid.RSA-OAEP", "jws.sign.set.nokid.EdDSA"),
     ("jws.sign.ES256", "consume:jws.sign.ES256.b"),
     ("jws.sign.disallowed", "jws.sign.ES256"),
     ("jwe.enc.dir", "jwe.enc.dir.b"),
